@@ -55,7 +55,8 @@ STUB = ["SimFile single-use stream stubs (text and binary, non-seekable)", "iter
 ASSUMPTIONS = [
     "reference for a simple query is compiled.findall(parsed value); for a compound query additionally the left-to-right fold of its operands' own findall results",
     "results are compared as typed JSON (text and stream forms produce fresh objects)",
-    "documents used with '&' contain no 0/1/true/false or 1/1.0 look-alikes, so Python equality and JSON equality coincide",
+    "where Python equality and JSON-value identity disagree about an intersection (1 / 1.0 / true on both sides) the fold is not judged; the entry points must still agree with one another",
+    "a document stream is read before the entry point returns -- also for lazy results: the caller may close its file as soon as the call has returned (with open(...) as f: it = finditer(q, f)), as on the pinned tree",
     "no failing reads are injected: the statement gives them no meaning; fault kinds are abandonment of a lazy result, short reads "
     "(read(n) returning fewer than n units before EOF, as pipes and sockets do) and the caller closing its stream once the call has returned",
 ]
